@@ -116,4 +116,23 @@ CLAIMS = {
           "create (incl. symlink targets) and rename against canaries next to and above the root; filepath.Clean mirror compared on a grammar.",
   "note": TB + "Premise of the property (no symlink leaves the tree) and OS path resolution of a cleaned path are assumed. Paths are modelled as component lists.",
  },
+ "C09": {
+  "technique": "Lean 4 proof (tag accounting as a permutation invariant over all schedules; reply delivery by tag) + differential correspondence with a scripted peer",
+  "text": "tags_partition (in every reachable state of the client model - any number of callers, any interleaving of alloc/enqueue/deliver/fail/"
+          "fan-out/return - free tags, cached slots and calls in progress are a permutation of the pool), outstanding_tags_nodup, tags_recycled "
+          "(nothing leaks: unbounded calls), own_reply (a frame wakes exactly the pending call carrying its tag, with its payload), "
+          "unknown_tag_fails. Correspondence: real Clnt vs a scripted peer (1..64 callers, random reply orders and kinds, arbitrary reply "
+          "segmentation, 70 000 consecutive calls); the observed schedule is replayed through the model and the accounting compared.",
+  "note": TB + "Error mapping (Rerror / wrong type) and the Tag interface are checked by the harness oracle, not theorems. Channels modelled as FIFO lists.",
+ },
+ "C10": {
+  "technique": "Lean 4 proof (no stuck caller in any state; fan-out terminates and wakes all; refusal after failure; no success without a delivered frame) + failure-injection correspondence",
+  "text": "no_stuck_state (in every state each call in progress is either waiting for the peer on a live connection or has an enabled step of its "
+          "own), fanout_wakes_all (after a failure pend.length fan-out steps wake every pending call exactly once, in order), later_calls_refused "
+          "(refused in the critical section, no tag consumed), no_false_success (a success result can only come from a delivered frame with the "
+          "call's tag). Correspondence: stream cut after every byte offset, garbage/oversize/undersize/unknown-tag frames, Unmount, a caller "
+          "parked between enqueue and hand-off during the failure; oracle: all calls return, success iff the reply was complete.",
+  "note": TB + "'within bounded time' is observed (8 s watchdog), not proved; fairness of the Go scheduler assumed. The real-code race between "
+          "the writer goroutine and ReqFree is outside the model (found and fixed through the correspondence, see DESIGN).",
+ },
 }
